@@ -151,6 +151,14 @@ func (in *Interp) step() {
 		return
 	}
 	p.steps++
+	if p.stepLimit > 0 && int64(p.steps) > p.stepLimit {
+		// the harness declared a bound on the work the code under test can
+		// legitimately need: beyond it the real program does not terminate
+		// promptly
+		lim := p.stepLimit
+		p.stepLimit = 0
+		panic(fatalError{fmt.Sprintf("no prompt termination: the step bound declared by the harness was exceeded (bound reached at step %d) in %s", lim, in.stackTail(3))})
+	}
 	if p.steps > p.maxSteps {
 		panic(abortPath{abortBudget, fmt.Sprintf("step budget %d exceeded", p.maxSteps)})
 	}
